@@ -7,7 +7,8 @@
     conditions (the "forgery event" made explicit) and binding as explicit hash collisions. *)
 From Coq Require Import ZArith List Permutation Bool.
 From CB Require Import Crypto.PairingAlg Crypto.Bls Crypto.BlsProofs Crypto.Ps Crypto.PsProofs
-  Crypto.Vrf Crypto.VrfProofs Crypto.VrfInst.
+  Crypto.Vrf Crypto.VrfProofs Crypto.VrfInst
+  Crypto.DupSort Crypto.ParReduce Crypto.BlsPar Crypto.VrfBytes Crypto.VrfBytesProofs Crypto.VrfBytesTheorems.
 Import ListNotations.
 
 (** an honest signature verifies under its key and message *)
@@ -538,3 +539,235 @@ Example vrf_small_order_key_nonvacuous :
   vrf_verify five g5_add g5_opp g5_zmul V1 unit h2c hpoints V0 (V0, 3%Z, 4%Z) tt = true.
 Proof. cbv zeta. repeat split; try reflexivity. apply Z.divide_1_l. Qed.
 Print Assumptions vrf_small_order_key_nonvacuous.
+
+(** ** has_duplicates as coded (sort, then compare neighbours) *)
+
+(** for EVERY correct sorting function (in particular whatever [sort_unstable] does) and every list
+    (lengths 0, 1, 2 included): the scan reports a duplicate iff two different positions hold the same key *)
+Theorem has_duplicates_sort_and_scan_iff :
+  forall (K : Type) (leb eqb : K -> K -> bool),
+  (forall a b, eqb a b = true <-> a = b) ->
+  (forall a b, leb a b = true -> leb b a = true -> a = b) ->
+  forall (srt : list K -> list K) (l : list K),
+  sorts K leb srt ->
+  (has_duplicates_with K eqb srt l = true <->
+   exists i j x, i < j /\ nth_error l i = Some x /\ nth_error l j = Some x).
+Proof. exact has_duplicates_with_positions. Qed.
+Print Assumptions has_duplicates_sort_and_scan_iff.
+
+(** the executable instance (insertion sort) is a correct sort, hence the same statement holds for it,
+    and it coincides with the quadratic model [Bls.has_dup] used by the aggregate theorems *)
+Theorem has_duplicates_coded_iff :
+  forall (K : Type) (leb eqb : K -> K -> bool),
+  (forall a b, eqb a b = true <-> a = b) ->
+  (forall a b, leb a b = true \/ leb b a = true) ->
+  (forall a b c, leb a b = true -> leb b c = true -> leb a c = true) ->
+  (forall a b, leb a b = true -> leb b a = true -> a = b) ->
+  forall l : list K,
+  (has_duplicates_coded K leb eqb l = true <->
+   exists i j x, i < j /\ nth_error l i = Some x /\ nth_error l j = Some x) /\
+  has_duplicates_coded K leb eqb l = has_dup K eqb l.
+Proof.
+  intros K leb eqb H1 H2 H3 H4 l. split.
+  - exact (has_duplicates_coded_positions K leb eqb H1 H2 H3 H4 l).
+  - rewrite (has_duplicates_coded_ref K leb eqb H1 H2 H3 H4 l). apply has_dup_ref_is_has_dup.
+Qed.
+Print Assumptions has_duplicates_coded_iff.
+
+(** the algorithm behind the sort is irrelevant *)
+Theorem has_duplicates_sort_irrelevant_thm :
+  forall (K : Type) (leb eqb : K -> K -> bool),
+  (forall a b, eqb a b = true <-> a = b) ->
+  (forall a b, leb a b = true -> leb b a = true -> a = b) ->
+  forall (srt srt' : list K -> list K) (l : list K),
+  sorts K leb srt -> sorts K leb srt' -> has_duplicates_with K eqb srt l = has_duplicates_with K eqb srt' l.
+Proof. exact has_duplicates_sort_irrelevant. Qed.
+Print Assumptions has_duplicates_sort_irrelevant_thm.
+
+(** ** rayon fold/reduce: every split tree, every chunk size, every threshold, every length *)
+Theorem par_reduce_any_tree_is_sequential :
+  forall (A T : Type) (op : T -> T -> T) (e : T) (g : A -> T),
+  (forall a b c, op a (op b c) = op (op a b) c) -> (forall a, op e a = a) -> (forall a, op a e = a) ->
+  (forall t : ptree A, peval A T op e g t = seqfold A T op e g (pflatten A t)) /\
+  (forall (n : nat) (l : list A), 0 < n -> chunked_eval A T op e g n l = seqfold A T op e g l) /\
+  (forall (n : nat) (l : list A), 0 < n -> concat (chunks_of A n l) = l) /\
+  (forall (d : nat) (l : list A), peval A T op e g (msplit A d l) = seqfold A T op e g l) /\
+  (forall (thr : nat) (split : list A -> ptree A) (l : list A),
+     (forall l, pflatten A (split l) = l) -> thresh_eval A T op e g thr split l = seqfold A T op e g l).
+Proof.
+  intros A T op e g Ha Hl Hr. split; [exact (peval_seq A T op e g Ha Hl Hr)|].
+  split; [exact (chunked_eval_seq A T op e g Ha Hl Hr)|]. split; [exact (chunks_of_concat A)|].
+  split; [intros d l; rewrite (peval_seq A T op e g Ha Hl Hr), msplit_flatten; reflexivity|].
+  exact (thresh_eval_seq A T op e g Ha Hl Hr).
+Qed.
+Print Assumptions par_reduce_any_tree_is_sequential.
+
+(** the three verifiers as coded (sort-and-scan, rayon trees, "sequential below thr keys") = the sequential models,
+    for every lawful pairing setting, every threshold [thr] (150 in the code) and every splitter *)
+Theorem aggregate_verifiers_as_coded_agree :
+  forall A : pops, plaws A ->
+  forall (Msg Dg : Type) (dg_eqb dg_leb : Dg -> Dg -> bool) (hm : Msg -> Dg) (H1 : Msg -> P1 A),
+  (forall (thr : nat) (split : list (P2 A) -> ptree (P2 A)) (pks : list (P2 A)),
+     (forall l, pflatten (P2 A) (split l) = l) -> sum_pks_coded A thr split pks = sum_pks A pks) /\
+  (forall (thr : nat) (split : list (P2 A) -> ptree (P2 A)) (t : ptree (Msg * list (P2 A))) (sig : P1 A),
+     (forall l, pflatten (P2 A) (split l) = l) ->
+     verify_hybrid_coded A Msg H1 thr split t sig = verify_aggregate_sig_hybrid A Msg H1 (pflatten (Msg * list (P2 A)) t) sig) /\
+  (forall (thr : nat) (split : list (P2 A) -> ptree (P2 A)) (m : Msg) (pks : list (P2 A)) (sig : P1 A),
+     (forall l, pflatten (P2 A) (split l) = l) ->
+     verify_trusted_coded A Msg H1 thr split m pks sig = verify_aggregate_sig_trusted_keys A Msg H1 m pks sig) /\
+  ((forall a b, dg_eqb a b = true <-> a = b) -> (forall a b, dg_leb a b = true -> dg_leb b a = true -> a = b) ->
+   forall (srt : list Dg -> list Dg) (t : ptree (Msg * P2 A)) (sig : P1 A),
+     sorts Dg dg_leb srt ->
+     verify_plain_coded A Msg Dg dg_eqb hm H1 srt t sig =
+     verify_aggregate_sig A Msg Dg dg_eqb hm H1 (pflatten (Msg * P2 A) t) sig).
+Proof.
+  intros A L Msg Dg dg_eqb dg_leb hm H1.
+  split; [exact (sum_pks_coded_seq A L)|]. split; [exact (verify_hybrid_coded_seq A L Msg H1)|].
+  split; [exact (verify_trusted_coded_seq A L Msg H1)|].
+  intros E1 E2 srt t sig S. exact (verify_plain_coded_seq A L Msg Dg dg_eqb dg_leb hm H1 E1 E2 srt t sig S).
+Qed.
+Print Assumptions aggregate_verifiers_as_coded_agree.
+
+(** non-vacuity / concrete runs of the new definitions *)
+Example has_duplicates_nonvacuous :
+  sorts nat Nat.leb (isort nat Nat.leb) /\
+  has_duplicates_coded nat Nat.leb Nat.eqb [] = false /\ has_duplicates_coded nat Nat.leb Nat.eqb [7] = false /\
+  has_duplicates_coded nat Nat.leb Nat.eqb [7; 7] = true /\ has_duplicates_coded nat Nat.leb Nat.eqb [7; 3] = false /\
+  has_duplicates_coded nat Nat.leb Nat.eqb [5; 1; 9; 1; 4] = true /\ has_duplicates_coded nat Nat.leb Nat.eqb [5; 1; 9; 2; 4] = false.
+Proof.
+  split; [|repeat split; reflexivity].
+  apply isort_sorts.
+  - intros a b. destruct (Nat.leb_spec a b), (Nat.leb_spec b a); auto. exfalso. eapply Nat.lt_irrefl, Nat.lt_trans; eassumption.
+  - intros a b c H1 H2. apply Nat.leb_le in H1, H2. apply Nat.leb_le. eapply Nat.le_trans; eassumption.
+Qed.
+Print Assumptions has_duplicates_nonvacuous.
+
+Example par_reduce_nonvacuous :
+  let xs := [3; 1; 4; 1; 5; 9; 2; 6; 5; 3; 5] in
+  chunks_of nat 4 xs = [[3; 1; 4; 1]; [5; 9; 2; 6]; [5; 3; 5]] /\
+  chunked_eval nat nat Nat.add 0 (fun x => x) 4 xs = 44 /\ seqfold nat nat Nat.add 0 (fun x => x) xs = 44 /\
+  peval nat nat Nat.add 0 (fun x => x) (msplit nat 3 xs) = 44 /\
+  thresh_eval nat nat Nat.add 0 (fun x => x) 11 (msplit nat 2) xs = 44 /\
+  thresh_eval nat nat Nat.add 0 (fun x => x) 12 (msplit nat 2) xs = 44.
+Proof. cbv zeta. repeat split; reflexivity. Qed.
+Print Assumptions par_reduce_nonvacuous.
+
+Local Open Scope Z_scope.
+
+(** ** ECVRF on bytes (VrfBytes.v): framing, challenge truncation, proof format, completeness *)
+
+(** the 16-byte challenge: the coded "first 16 digest bytes, zero padded, reduced mod l" is the 128-bit
+    little-endian value (no reduction happens), its 16-byte encoding is injective on [0, 2^128) and
+    is inverted by decoding *)
+Theorem ecvrf_challenge_truncation :
+  (forall d, bytes_ok d ->
+     challenge_of_digest d = le_decode (firstn 16 d) /\ (0 <= challenge_of_digest d < 2 ^ 128)%Z) /\
+  (forall c c', (0 <= c < 2 ^ 128)%Z -> (0 <= c' < 2 ^ 128)%Z -> le_encode 16 c = le_encode 16 c' -> c = c') /\
+  (forall c, (0 <= c < 2 ^ 128)%Z -> le_decode (le_encode 16 c) = c) /\
+  (forall t, bytes_ok t -> (length t <= 16)%nat -> scalar_from_canonical (t ++ repeat 0%N 16) = Some (le_decode t)).
+Proof.
+  split; [exact challenge_of_digest_spec|]. split; [exact challenge_encoding_injective|].
+  split; [|exact challenge_field_canonical].
+  intros c Hc. rewrite le_decode_encode, p256_16. apply Z.mod_small. exact Hc.
+Qed.
+Print Assumptions ecvrf_challenge_truncation.
+
+(** proof format: decode inverts encode; decode accepts exactly 80+ bytes with a decompressible Gamma and s < l *)
+Theorem ecvrf_proof_codec :
+  forall (G : Type) (compress : G -> list N) (decompress : list N -> option G),
+  (forall P, length (compress P) = 32%nat) -> (forall P, decompress (compress P) = Some P) ->
+  (forall gm c s pib, (0 <= c)%Z -> (0 <= s < ed_l)%Z ->
+     encode_proof G compress (gm, c, s) = Some pib -> decode_proof G decompress pib = Some (gm, c, s)) /\
+  (forall bs gm c s, bytes_ok bs ->
+     (decode_proof G decompress bs = Some (gm, c, s) <->
+      (80 <= length bs)%nat /\ decompress (firstn 32 bs) = Some gm /\
+      c = le_decode (firstn 16 (skipn 32 bs)) /\ s = le_decode (firstn 32 (skipn 48 bs)) /\ (s < ed_l)%Z)) /\
+  (forall bs, bytes_ok bs -> (ed_l <= le_decode (firstn 32 (skipn 48 bs)))%Z -> decode_proof G decompress bs = None).
+Proof.
+  intros G compress decompress H1 H2. split; [exact (decode_encode G compress decompress H1 H2)|].
+  split; [exact (decode_proof_iff G decompress) | exact (decode_rejects_large_s G decompress)].
+Qed.
+Print Assumptions ecvrf_proof_codec.
+
+(** completeness on bytes: the 80 bytes made by prove (framing, truncation, encoding as coded) are
+    accepted by deserialize-then-verify under the key derived from the same secret key bytes *)
+Theorem ecvrf_bytes_complete :
+  forall (G : Type) (gzero : G) (gadd : G -> G -> G) (gopp : G -> G) (zmul : Z -> G -> G) (geqb : G -> G -> bool),
+  (forall a b c, gadd a (gadd b c) = gadd (gadd a b) c) -> (forall a b, gadd a b = gadd b a) ->
+  (forall a, gadd gzero a = a) -> (forall a, gadd a (gopp a) = gzero) ->
+  (forall x y a, zmul (x + y) a = gadd (zmul x a) (zmul y a)) ->
+  (forall x a b, zmul x (gadd a b) = gadd (zmul x a) (zmul x b)) ->
+  (forall x y a, zmul (x * y) a = zmul x (zmul y a)) ->
+  forall B : G, (forall n, zmul n B = gzero <-> (ed_l | n)%Z) -> (forall P, zmul (ed_l * 8) P = gzero) ->
+  forall (compress : G -> list N) (decompress : list N -> option G),
+  (forall P, length (compress P) = 32%nat) -> (forall P, decompress (compress P) = Some P) ->
+  forall sha512 : list N -> list N, (forall m, bytes_ok (sha512 m)) ->
+  forall skb alpha pib,
+  ecvrf_prove_bytes G gzero zmul geqb B compress decompress sha512 skb (pk_of_secret G zmul B compress sha512 skb) alpha = Some pib ->
+  ecvrf_verify_bytes G gzero gadd gopp zmul geqb B compress decompress sha512 (pk_of_secret G zmul B compress sha512 skb) pib alpha = true.
+Proof. exact ecvrf_bytes_complete_l. Qed.
+Print Assumptions ecvrf_bytes_complete.
+
+(** determinism: prove takes the secret key bytes, the key and the input and nothing else (it is a
+    function), its assertion never fails, and the output bytes depend only on the secret scalar and H *)
+Theorem ecvrf_bytes_output_deterministic :
+  forall (G : Type) (gzero : G) (zmul : Z -> G -> G) (geqb : G -> G -> bool) (B : G)
+    (compress : G -> list N) (decompress : list N -> option G),
+  (forall P, length (compress P) = 32%nat) -> (forall P, decompress (compress P) = Some P) ->
+  forall sha512 : list N -> list N, (forall m, bytes_ok (sha512 m)) ->
+  forall skb pk alpha pib,
+  ecvrf_prove_bytes G gzero zmul geqb B compress decompress sha512 skb pk alpha = Some pib ->
+  exists H, h2c_bytes G gzero zmul geqb decompress sha512 (fst pk) alpha = Some H /\
+    ecvrf_hash_bytes G zmul compress decompress sha512 pib =
+    Some (sha512 (beta_input (compress (zmul 8 (zmul (fst (expand_key (sha512 skb))) H))))).
+Proof. exact ecvrf_bytes_output_l. Qed.
+Print Assumptions ecvrf_bytes_output_deterministic.
+
+(** uniqueness on bytes: two byte strings that parse to proofs whose Gammas satisfy the DLEQ relation for the
+    same key and H have the same output *)
+Theorem ecvrf_bytes_unique_given_dleq :
+  forall (G : Type) (gzero : G) (gadd : G -> G -> G) (gopp : G -> G) (zmul : Z -> G -> G),
+  (forall a b c, gadd a (gadd b c) = gadd (gadd a b) c) -> (forall a b, gadd a b = gadd b a) ->
+  (forall a, gadd gzero a = a) -> (forall a, gadd a (gopp a) = gzero) ->
+  (forall x y a, zmul (x + y) a = gadd (zmul x a) (zmul y a)) ->
+  (forall x a b, zmul x (gadd a b) = gadd (zmul x a) (zmul x b)) ->
+  (forall x y a, zmul (x * y) a = zmul x (zmul y a)) ->
+  forall B : G, (forall n, zmul n B = gzero <-> (ed_l | n)%Z) ->
+  forall (compress : G -> list N) (decompress : list N -> option G) (sha512 : list N -> list N),
+  forall Y H pib1 pib2 gm1 c1 s1 gm2 c2 s2,
+  zmul ed_l H = gzero ->
+  decode_proof G decompress pib1 = Some (gm1, c1, s1) -> decode_proof G decompress pib2 = Some (gm2, c2, s2) ->
+  dleq G zmul B Y H gm1 -> dleq G zmul B Y H gm2 ->
+  ecvrf_hash_bytes G zmul compress decompress sha512 pib1 = ecvrf_hash_bytes G zmul compress decompress sha512 pib2.
+Proof. exact ecvrf_bytes_unique_given_dleq_l. Qed.
+Print Assumptions ecvrf_bytes_unique_given_dleq.
+
+(** exact acceptance condition on bytes, with the transcript spelled out *)
+Theorem ecvrf_verify_bytes_iff :
+  forall (G : Type) (gzero : G) (gadd : G -> G -> G) (gopp : G -> G) (zmul : Z -> G -> G) (geqb : G -> G -> bool) (B : G)
+    (compress : G -> list N) (decompress : list N -> option G) (sha512 : list N -> list N) pk pib alpha,
+  ecvrf_verify_bytes G gzero gadd gopp zmul geqb B compress decompress sha512 pk pib alpha = true <->
+  exists gm c s H, decode_proof G decompress pib = Some (gm, c, s) /\
+    h2c_bytes G gzero zmul geqb decompress sha512 (fst pk) alpha = Some H /\
+    c = challenge_of_digest (sha512 (challenge_input (compress H) (compress gm)
+          (compress (gsub G gadd gopp (zmul s B) (zmul c (snd pk))))
+          (compress (gsub G gadd gopp (zmul s H) (zmul c gm))))).
+Proof. exact ecvrf_verify_bytes_iff_l. Qed.
+Print Assumptions ecvrf_verify_bytes_iff.
+
+(** the codec on concrete bytes (points = their encodings): an 80-byte proof with s = l - 1 is accepted and
+    re-encodes to itself, s = l is rejected, 79 bytes are rejected, a set bit above 2^128 in c makes encode fail *)
+Example ecvrf_codec_nonvacuous :
+  let gm := repeat 9%N 32 in
+  let dec := fun b : list N => Some b in
+  encode_proof (list N) (fun p => p) (gm, 5%Z, (ed_l - 1)%Z) <> None /\
+  (forall pib, encode_proof (list N) (fun p => p) (gm, 5%Z, (ed_l - 1)%Z) = Some pib ->
+     length pib = 80%nat /\ decode_proof (list N) dec pib = Some (gm, 5%Z, (ed_l - 1)%Z) /\
+     decode_proof (list N) dec (firstn 79 pib) = None) /\
+  decode_proof (list N) dec (gm ++ le_encode 16 5 ++ le_encode 32 ed_l) = None /\
+  encode_proof (list N) (fun p => p) (gm, (2 ^ 128)%Z, 0%Z) = None.
+Proof.
+  cbv zeta. split; [vm_compute; discriminate|]. split; [|split; vm_compute; reflexivity].
+  intros pib E. vm_compute in E. injection E as <-. repeat split; vm_compute; reflexivity.
+Qed.
+Print Assumptions ecvrf_codec_nonvacuous.
